@@ -322,6 +322,8 @@ def step (st : St) (line : String) : St × String :=
   | "gff_append" :: safe :: ent =>
     match st, parseNats safe, decEntry ent with
     | .gff g, some safe, some e =>
+      -- `append` refuses a file with a `##FASTA` part BEFORE it creates the line (a refusal either way, but another class)
+      if g.idx.hasFasta then (st, errS .notImplemented) else
       (match createLine safe e with
        | .error er => (st, errS er)
        | .ok l => upd st (gffAppend g l) .gff showGff)
@@ -331,6 +333,7 @@ def step (st : St) (line : String) : St × String :=
     | .gff g, some i, some safe, some e =>
       -- `insert` creates the line only on the non-append path, after `self._entries[index]`
       if i = g.idx.entries.length then
+        if g.idx.hasFasta then (st, errS .notImplemented) else
         (match createLine safe e with
          | .error er => (st, errS er)
          | .ok l => upd st (gffAppend g l) .gff showGff)
